@@ -38,15 +38,21 @@ ATTR = {
     ('variant', 'pos'): ('v_pos', 'int'), ('variant', 'ref'): ('v_ref_s', 'str'), ('variant', 'alt'): ('v_alt_s', 'str'),
     ('vstat', 'pos'): ('vpos', 'int'), ('vstat', 'ref_len'): ('vrl', 'int'), ('vstat', 'alt_len'): ('val', 'int'),
     ('po', 'pos'): ('fst', 'int'), ('po', 'offset'): ('snd', 'int'),
+    ('kgpo', 'ref_range'): ('kg_range', 'range'), ('kgpo', 'alt_length'): ('kg_alt_length', 'int'),
+    ('kgpo', '_pos_offsets'): ('kg_pos_offsets', 'list:po'), ('kgpo', '_alt_offsets'): ('kg_alt_offsets', 'list:po'),
+    ('kgpo', '_ref_del_mask'): ('kg_del', 'list:int'), ('kgpo', '_shift_mask'): ('kg_shift', 'list:int'), ('kgpo', '_alt_ins_mask'): ('kg_ins', 'list:int'),
 }
+# records whose field list (names, annotations, order) is re-read from the source before their attributes are translated
+RECORD_FIELDS = {'GenomicPositionOffsets': ('kgpo', [('ref_range', 'UIntRange'), ('alt_length', 'int'), ('_pos_offsets', 'list[PosOffset]'), ('_ref_del_mask', 'array'),
+                                                    ('_shift_mask', 'array'), ('_alt_offsets', 'list[PosOffset]'), ('_alt_ins_mask', 'array')])}
 # dataclasses built positionally -> (type tag, field names in order, field types); the field order is re-read from the source (module_facts)
 CTOR = {'PosOffset': ('po', ['pos', 'offset'], ['int', 'int'])}
 # python annotation -> model type tag
 ANNOT = {'int': 'int', 'bool': 'bool', 'Strand': 'strand', 'Exon': 'exon', 'UIntRange': 'range', 'IntPatternBuilder': 'pt', 'CdsSeq': 'cds',
          'TargetonConfig': 'tcfg', 'str': 'str', 'str | None': 'ostr', 'VariantType': 'vtype', 'Variant': 'variant', 'VarStats': 'vstat',
-         'list[VarStats]': 'list:vstat', 'Iterable[VarStats]': 'list:vstat', 'list[PosOffset]': 'list:po', 'array': 'list:int'}
+         'SearchType': 'search', 'SearchType | None': 'option:search', 'list[VarStats]': 'list:vstat', 'Iterable[VarStats]': 'list:vstat', 'list[PosOffset]': 'list:po', 'array': 'list:int'}
 COQ_TYPE = {'int': 'Z', 'bool': 'bool', 'strand': 'strand', 'exon': 'exon', 'range': 'range', 'pt': 'pt', 'cds': 'cds_seq', 'tcfg': 'tcfg', 'unit': 'unit',
-            'str': 'string', 'ostr': '(option string)', 'vtype': 'vtype', 'strenum': 'string', 'variant': 'variant', 'vstat': 'vstat', 'po': '(Z * Z)'}
+            'str': 'string', 'ostr': '(option string)', 'vtype': 'vtype', 'strenum': 'string', 'variant': 'variant', 'vstat': 'vstat', 'po': '(Z * Z)', 'kgpo': 'kgpo', 'search': 'search'}
 
 
 def coq_type(t: str) -> str:
@@ -69,12 +75,17 @@ def coq_string(x: str) -> str:
     if any(ord(c) < 32 or ord(c) > 126 for c in x):
         raise TransError('non-printable character in a string literal')
     return '"' + x.replace('"', '""') + '"'
-ERR = {'ValueError': 'ValueError', 'AssertionError': 'AssertionError', 'NotImplementedError': 'NotImplementedErr'}
+ERR = {'ValueError': 'ValueError', 'AssertionError': 'AssertionError', 'NotImplementedError': 'NotImplementedErr', 'RuntimeError': 'RuntimeError'}
+# members of the IntEnum SearchType -> constructors of the model's `search` (the values are re-read from the source)
+SEARCH_MEMBERS = {'BEFORE': ('Before', 0), 'AFTER': ('After', 1)}
+# functions of array_utils.py that are not translated (a while loop, try / except): their semantics are the definitions of Model/PyLoop.v
+ARRAY_BUILTINS = {'get_prev_index': 'u8_prev_index', 'get_next_index': 'u8_next_index'}
 
 
 class Fn:
-    def __init__(self, coq_name, params, ret):
+    def __init__(self, coq_name, params, ret, defaults=None):
         self.coq_name, self.params, self.ret = coq_name, params, ret      # params: [(name, type tag)], ret: type tag
+        self.defaults = defaults or {}                                    # parameter name -> default value (an ast constant)
 
 
 class Translator:
@@ -90,6 +101,10 @@ class Translator:
         self.nodes: dict[str, ast.FunctionDef] = {}       # translated functions by call key (for the format-only check)
         self.noreturn: set[str] = set()
         self.loops: list[dict] = []                       # enclosing `for` loops of the statement being translated
+        self.narrow: dict[str, tuple[str, str]] = {}      # expressions known not to be None at this point (ast.dump -> value, type)
+        self.records: set[str] = set()                    # record types whose field list was confirmed in the source
+        self.search_ok = False                            # SearchType members confirmed in the source
+        self.fn_tables: dict[str, tuple] = {}             # module-level dictionaries of functions: name -> (coq name, key type, parameter types, return type)
         self.ctors: set[str] = set()                      # dataclass constructors whose field order was confirmed in the source
 
     # ------------------------------------------------------------ expressions
@@ -99,6 +114,10 @@ class Translator:
 
     def expr(self, e, env, binds):
         """-> (coq term, type tag); monadic sub-computations are appended to binds as (var, term)."""
+        if self.narrow and not isinstance(e, ast.Constant):
+            key = ast.dump(e)
+            if key in self.narrow:
+                return self.narrow[key]
         if isinstance(e, ast.Constant):
             if isinstance(e.value, bool):
                 return ('true' if e.value else 'false'), 'bool'
@@ -134,6 +153,12 @@ class Translator:
             if len({t for _, t in parts}) != 1:
                 raise TransError('list of mixed types')
             return '[' + '; '.join(p for p, _ in parts) + ']', 'list:' + parts[0][1]
+        if isinstance(e, ast.Subscript) and isinstance(e.value, ast.Name) and e.value.id in self.fn_tables and e.value.id not in env:
+            coqn, kt, _, _ = self.fn_tables[e.value.id]
+            k, tk = self.expr(e.slice, env, binds)
+            if tk != kt:
+                raise TransError(f'key of {e.value.id}: {tk}')
+            return f'({coqn} {k})', 'fnval:' + e.value.id      # every member of the key type has an entry (checked in module_facts)
         if isinstance(e, ast.Subscript):
             v, t = self.expr(e.value, env, binds)
             i, ti = self.expr(e.slice, env, binds)
@@ -167,6 +192,42 @@ class Translator:
             if type(e.op) not in ops or ta != 'int' or tb != 'int':
                 raise TransError('binary operator')
             return f'({a} {ops[type(e.op)]} {b})', 'int'
+        if isinstance(e, ast.BoolOp) and isinstance(e.op, ast.Or):
+            # `... or X is None or <uses of X>`: the operands after the test see the value of X (a pure attribute / property chain)
+            for k, x in enumerate(e.values[:-1]):
+                if isinstance(x, ast.Compare) and len(x.ops) == 1 and isinstance(x.ops[0], ast.Is) and isinstance(x.comparators[0], ast.Constant) \
+                        and x.comparators[0].value is None and self.pure_chain(x.left):
+                    pre = []
+                    v, t = self.expr(x.left, env, pre)
+                    if not t.startswith('option:'):
+                        continue
+                    head = e.values[:k]
+                    inner = []
+                    if head:
+                        hv, ht = self.expr(ast.BoolOp(op=ast.Or(), values=head) if len(head) > 1 else head[0], env, inner)
+                        if ht != 'bool':
+                            raise TransError('boolean operator on non-booleans')
+                    key = ast.dump(x.left)
+                    nv = self.tmp()
+                    saved = dict(self.narrow)
+                    self.narrow[key] = (nv, t[7:])
+                    try:
+                        tail_binds = []
+                        rest = e.values[k + 1:]
+                        tv, tt = self.expr(ast.BoolOp(op=ast.Or(), values=rest) if len(rest) > 1 else rest[0], env, tail_binds)
+                    finally:
+                        self.narrow = saved
+                    if tt != 'bool':
+                        raise TransError('boolean operator on non-booleans')
+                    tail = f'(match {v} with None => Ok true | Some {nv} => {self.wrap(tail_binds, "Ok " + tv)} end)'
+                    body = self.wrap(pre, tail)
+                    xres = self.tmp()
+                    if head:
+                        binds.extend(inner)
+                        binds.append((xres, f'(if {hv} then Ok true else {body})'))
+                    else:
+                        binds.append((xres, body))
+                    return xres, 'bool'
         if isinstance(e, ast.BoolOp):
             # `and` / `or` evaluate lazily: an operand after the first that may raise is only run when it is reached
             lazy = []
@@ -250,6 +311,11 @@ class Translator:
                 a = f'(Some {a})' if ta == 'str' else a
                 b = f'(Some {b})' if tb == 'str' else b
                 ta = tb = 'ostr'
+            if ta != tb and 'none' in (ta, tb) and (ta if tb == 'none' else tb) in ('search', 'int', 'range'):
+                inner_t = ta if tb == 'none' else tb
+                a = f'(Some {a})' if ta == inner_t else a
+                b = f'(Some {b})' if tb == inner_t else b
+                ta = tb = 'option:' + inner_t
             if tc != 'bool' or ta != tb:
                 raise TransError('conditional expression types')
             if inner_a or inner_b:
@@ -269,11 +335,15 @@ class Translator:
                 return f'({coq_string(self.str_enums[e.value.id][e.attr])}%string)', 'strenum'     # a member of a string Enum: its value
             if isinstance(e.value, ast.Name) and e.value.id == 'VariantType' and e.attr in VTYPE_MEMBERS:
                 return VTYPE_MEMBERS[e.attr], 'vtype'
+            if isinstance(e.value, ast.Name) and e.value.id == 'SearchType' and e.attr in SEARCH_MEMBERS and self.search_ok:
+                return SEARCH_MEMBERS[e.attr][0], 'search'
             v, t = self.expr(e.value, env, binds)
             if t == 'strenum' and e.attr == 'value':
                 return v, 'str'
             if t == 'vtype' and e.attr == 'value':
                 return f'(vtype_value {v})', 'int'
+            if any(t == tag for tag, _ in RECORD_FIELDS.values()) and t not in self.records:
+                raise TransError(f'fields of {t} not confirmed in the source')
             key = (t, e.attr)
             if key in ATTR:
                 acc, ty = ATTR[key]
@@ -286,13 +356,17 @@ class Translator:
             raise TransError(f'attribute {t}.{e.attr}')
         if isinstance(e, ast.Call):
             f = e.func
-            if e.keywords:
+            if e.keywords and not (isinstance(f, ast.Attribute) or (isinstance(f, ast.Name) and f.id in self.fns)):
                 raise TransError('keyword arguments')
+            if any(k.arg is None for k in e.keywords):
+                raise TransError('**kwargs')
             if isinstance(f, ast.Name) and f.id == 'list' and len(e.args) == 1 and isinstance(e.args[0], ast.Call) \
-                    and isinstance(e.args[0].func, ast.Name) and e.args[0].func.id == 'range' and len(e.args[0].args) == 3:
+                    and isinstance(e.args[0].func, ast.Name) and e.args[0].func.id == 'range' and len(e.args[0].args) in (2, 3):
                 a3 = [self.expr(x, env, binds) for x in e.args[0].args]
                 if any(t != 'int' for _, t in a3):
                     raise TransError('range over non-integers')
+                if len(a3) == 2:
+                    return f'(py_range {a3[0][0]} {a3[1][0]} 1)', 'list:int'
                 return f'(py_range {a3[0][0]} {a3[1][0]} {a3[2][0]})', 'list:int'
             if isinstance(f, ast.Name) and f.id == 'sum' and len(e.args) == 1 and isinstance(e.args[0], ast.GeneratorExp):
                 g = e.args[0]
@@ -344,11 +418,16 @@ class Translator:
                     x = self.tmp()
                     binds.append((x, f'mk_range {args[0][0]} {args[1][0]}'))
                     return x, 'range'
+                if f.id in env and env[f.id][1].startswith('fnval:'):
+                    _, _, ptypes, rett = self.fn_tables[env[f.id][1][6:]]
+                    if [t for _, t in args] != ptypes or e.keywords:
+                        raise TransError(f'call of a function taken from {env[f.id][1][6:]}: argument types')
+                    x = self.tmp()
+                    binds.append((x, f'{env[f.id][0]} ' + ' '.join(a for a, _ in args)))
+                    return x, rett
                 fn = self.fns.get(f.id)
                 if fn is not None:
-                    if len(args) != len(fn.params):
-                        raise TransError(f'arity of {f.id}')
-                    args = [self.coerce(a, ta, tp, f.id, pn) for (a, ta), (pn, tp) in zip(args, fn.params)]
+                    args = self.bind_args(args, e.keywords, fn, [p_ for p_ in fn.params], f.id, env, binds)
                     x = self.tmp()
                     binds.append((x, (f'{fn.coq_name} ' + ' '.join(a for a, _ in args)).strip()))
                     return x, fn.ret
@@ -358,15 +437,38 @@ class Translator:
                 fn = self.fns.get(f'{t}.{f.attr}')
                 if fn is not None:
                     formal = [p_ for p_ in fn.params if p_[0] != 'self']
-                    if len(formal) != len(args):
-                        raise TransError(f'arity of {t}.{f.attr}')
-                    args = [self.coerce(a, ta, tp, f'{t}.{f.attr}', pn) for (a, ta), (pn, tp) in zip(args, formal)]
+                    args = self.bind_args(args, e.keywords, fn, formal, f'{t}.{f.attr}', env, binds)
                     x = self.tmp()
                     binds.append((x, f'{fn.coq_name} {v} ' + ' '.join(a for a, _ in args)))
                     return x, fn.ret
                 raise TransError(f'method {t}.{f.attr}')
             raise TransError('call')
         raise TransError(f'expression {type(e).__name__}')
+
+    def bind_args(self, args, keywords, fn, formal, key, env, binds):
+        """Positional arguments, then keywords by name, then the defaults of the callee (constants)."""
+        if len(args) > len(formal):
+            raise TransError(f'arity of {key}')
+        given = {pn: a for (pn, _), a in zip(formal, args)}
+        for k in keywords:
+            if k.arg in given or k.arg not in {pn for pn, _ in formal}:
+                raise TransError(f'keyword argument {k.arg} of {key}')
+            given[k.arg] = self.expr(k.value, env, binds)
+        out = []
+        for pn, tp in formal:
+            if pn not in given:
+                if pn not in fn.defaults:
+                    raise TransError(f'arity of {key}')
+                given[pn] = self.expr(fn.defaults[pn], {}, [])
+            a, ta = given[pn]
+            out.append(self.coerce(a, ta, tp, key, pn))
+        return out
+
+    def pure_chain(self, e) -> bool:
+        """A name or a chain of attribute reads on it: evaluating it twice gives the same value (dataclass fields and translated properties)."""
+        while isinstance(e, ast.Attribute):
+            e = e.value
+        return isinstance(e, ast.Name)
 
     @staticmethod
     def truth(v, t):
@@ -411,6 +513,10 @@ class Translator:
         if tp == 'ostr' and ta == 'str':
             return f'(Some {a})', tp
         if tp == 'ostr' and ta == 'none':
+            return 'None', tp
+        if tp.startswith('option:') and ta == tp[7:]:
+            return f'(Some {a})', tp
+        if tp.startswith('option:') and ta == 'none':
             return 'None', tp
         if tp == 'str' and ta == 'ostr' and self.format_only(fkey, pname):
             return f'(fmt_ostr {a})', tp      # Python passes the object along; the callee only formats it
@@ -547,6 +653,14 @@ class Translator:
             env2[name] = (cname(name), 'list:int')
             body, tb = self.block(rest, env2)
             return self.wrap(binds, f'do {cname(name)} <- py_set {env[name][0]} {i} {st.value.value}; {body}'), tb
+        if isinstance(st, ast.Expr) and isinstance(st.value, ast.Call) and isinstance(st.value.func, ast.Attribute) and st.value.func.attr != 'append':
+            # a call made for its exception only (self.validate_...(x)): a translated procedure
+            binds = []
+            v, t = self.expr(st.value, env, binds)
+            if t != 'unit':
+                raise TransError('expression statement that is not a procedure call')
+            body, tb = self.block(rest, env)
+            return self.wrap(binds, body), tb
         if isinstance(st, ast.For):
             return self.for_loop(st, rest, env)
         if isinstance(st, ast.Assign) and len(st.targets) == 1 and isinstance(st.targets[0], ast.Name):
@@ -758,6 +872,17 @@ class Translator:
                             or any(isinstance(st, ast.FunctionDef) for st in c.body) or not any('dataclass' in ast.unparse(d) for d in c.decorator_list):
                         raise TransError(f'dataclass {c.name}: fields {fields}')
                     self.ctors.add(c.name)
+                if isinstance(c, ast.ClassDef) and c.name in RECORD_FIELDS:
+                    fields = [(st.target.id, ast.unparse(st.annotation)) for st in c.body if isinstance(st, ast.AnnAssign) and isinstance(st.target, ast.Name)]
+                    if fields != RECORD_FIELDS[c.name][1] or not any('dataclass' in ast.unparse(d) for d in c.decorator_list):
+                        raise TransError(f'record {c.name}: fields {fields}')
+                    self.records.add(RECORD_FIELDS[c.name][0])
+                if isinstance(c, ast.ClassDef) and c.name == 'SearchType':
+                    vals = {st.targets[0].id: st.value.value for st in c.body if isinstance(st, ast.Assign) and len(st.targets) == 1
+                            and isinstance(st.targets[0], ast.Name) and isinstance(st.value, ast.Constant)}
+                    if vals != {m: v for m, (_, v) in SEARCH_MEMBERS.items()} or [ast.unparse(b) for b in c.bases] != ['IntEnum']:
+                        raise TransError(f'SearchType members {vals}')
+                    self.search_ok = True
                 if isinstance(c, ast.ClassDef) and c.name == 'VariantType':
                     vals = {}
                     for st in c.body:
@@ -770,6 +895,19 @@ class Translator:
                                     ' | '.join(f'{VTYPE_MEMBERS[m]} => {vals[m]}' for m in VTYPE_MEMBERS) + ' end.\n')
         for tree in trees.values():
             for st in tree.body:
+                if isinstance(st, ast.AnnAssign) and isinstance(st.target, ast.Name) and st.target.id == 'SEARCH_F' and isinstance(st.value, ast.Dict) and self.search_ok:
+                    # a dictionary from SearchType members to array_utils functions: total over the members, values among the known builtins
+                    entries = {}
+                    for k, v in zip(st.value.keys, st.value.values):
+                        if not (isinstance(k, ast.Attribute) and isinstance(k.value, ast.Name) and k.value.id == 'SearchType' and k.attr in SEARCH_MEMBERS
+                                and isinstance(v, ast.Name) and v.id in ARRAY_BUILTINS and v.id in getattr(self, 'builtins', ())):
+                            raise TransError('SEARCH_F entry')
+                        entries[k.attr] = ARRAY_BUILTINS[v.id]
+                    if set(entries) != set(SEARCH_MEMBERS):
+                        raise TransError('SEARCH_F is not total over SearchType')
+                    self.out.append('Definition k_SEARCH_F (s : search) : list Z -> Z -> Z -> result (option Z) :=\n  match s with ' +
+                                    ' | '.join(f'{SEARCH_MEMBERS[m][0]} => {entries[m]}' for m in SEARCH_MEMBERS) + ' end.\n')
+                    self.fn_tables['SEARCH_F'] = ('k_SEARCH_F', 'search', ['list:int', 'int', 'int'], 'option:int')
                 if isinstance(st, ast.AnnAssign) and isinstance(st.target, ast.Name) and st.value is not None and ast.unparse(st.annotation) == 'int':
                     try:
                         v, t = self.expr(st.value, {}, [])
@@ -804,6 +942,14 @@ class Translator:
                 raise TransError(f'{key}: parameter type {ann}')
             params.append((a.arg, ANNOT[ann]))
         env = {n: (cname(n), t) for n, t in params}
+        defaults = {}
+        pos = [a for a in node.args.args if a.arg not in ('self', 'cls')]
+        for a, dv in zip(pos[len(pos) - len(node.args.defaults):], node.args.defaults):
+            if not (isinstance(dv, ast.Constant) and (dv.value is None or isinstance(dv.value, (bool, int)))):
+                raise TransError(f'{key}: default value of {a.arg}')
+            defaults[a.arg] = dv
+        if node.args.kwonlyargs or node.args.vararg or node.args.kwarg:
+            raise TransError(f'{key}: parameter kinds')
         self.procedure = node.returns is not None and ast.unparse(node.returns) == 'None'
         self.nodes[key] = node
         body, ret = self.block(node.body, env)
@@ -825,7 +971,7 @@ class Translator:
                 body, _ = self.block(node.body, env)
             finally:
                 self.wrap_some = False
-        self.fns[key] = Fn(coq_name, params, ret)
+        self.fns[key] = Fn(coq_name, params, ret, defaults)
         sig = ' '.join(f'({cname(n)} : {coq_type(t)})' for n, t in params)
         self.out.append(f'Definition {coq_name} {sig} : result {self.coq_ret(ret)} :=\n  {body}.\n')
 
